@@ -3,6 +3,7 @@
 From Coq Require Import List ZArith Bool.
 From TR Require Import model.Ring model.Processor model.ProcAbs model.ProcSpec proofs.ProcS0102.
 (* constants and wiring read from the Go sources on every run *)
+From TR Require Import model.ProcExt proofs.TieCorollaries.
 From TR Require Import proofs.FactsRing proofs.FactsProc.
 Import ListNotations.
 Open Scope Z_scope.
@@ -36,3 +37,17 @@ Example C01_ex :
   map (has_start_ok SMotion) (map snd (psteps ex_cfg [] [] [] ex_evs)) =
     [false; false; true; false; false; false; true; false].
 Proof. vm_compute. auto. Qed.
+
+(* ---- source tie: motion/motionprocessor.go and motion/frameloop.go as they are in /repo now ----
+   coq/translated/MotionProcessor.v and FrameLoop.v are regenerated from the Go sources on every run;
+   model/ProcExt.v gives the calls that leave them (frame parser, detector verdict, recording window,
+   the three sinks with their fault scripts, listener, log, mutex) the meaning the model assumes.
+   For every configuration with ring capacity >= 1, every event list (valid / bad frames, resets,
+   test-recording requests) and every fault script, the translated Process / Reset produce exactly the
+   calls and callbacks of the model: the steps the theorems above speak about ARE the steps of the
+   translated source.  A change to motionprocessor.go or frameloop.go that alters what the processor
+   does on some history breaks this theorem, whether or not a generated input reaches that history. *)
+Theorem C01_source_tie : forall c fm fc ft evs,
+    1 <= p_size c ->
+    src_psteps c fm fc ft evs = psteps c fm fc ft evs.
+Proof. exact src_psteps_eq. Qed.
